@@ -63,7 +63,10 @@ Family(al) ==
     Fn(<<116,114,105,109>>, Sep(<<<<S>>, ch(c)>>)), Fn(<<116,114,105,109,95,108,101,102,116>>, Sep(<<<<S>>, <<StrTok(al, <<c, 1>>)>>>>)),
     Fn(<<116,114,105,109,95,114,105,103,104,116>>, Sep(<<<<S>>, ch(c)>>)),
     Fn(<<112,97,100,95,108,101,102,116>>, Sep(<<<<S>>, <<NumTok(3)>>, ch(c)>>)), Fn(<<112,97,100,95,114,105,103,104,116>>, Sep(<<<<S>>, <<NumTok(4)>>, ch(c)>>)),
-    Fn(<<112,97,100,95,108,101,102,116>>, Sep(<<<<S>>, <<NumTok(2)>>, <<StrTok(al, <<c, c>>)>>>>))
+    Fn(<<112,97,100,95,108,101,102,116>>, Sep(<<<<S>>, <<NumTok(2)>>, <<StrTok(al, <<c, c>>)>>>>)),
+    \* widths beyond any internal buffer or block size
+    Fn(<<112,97,100,95,108,101,102,116>>, Sep(<<<<S>>, <<NumTok(100)>>, ch(c)>>)), Fn(<<112,97,100,95,114,105,103,104,116>>, Sep(<<<<S>>, <<NumTok(300)>>, ch(c)>>)),
+    Fn(<<108,101,110,103,116,104>>, Fn(<<112,97,100,95,114,105,103,104,116>>, Sep(<<<<S>>, <<NumTok(257)>>, ch(c)>>)))
     } : c \in 1..6 }
   \cup { Fn(<<112,97,100,95,108,101,102,116>>, Sep(<<<<S>>, <<NumTok(w)>>>>)) : w \in 0..5 }
   \cup { Fn(<<112,97,100,95,114,105,103,104,116>>, Sep(<<<<S>>, <<NumTok(w)>>>>)) : w \in 0..5 }
